@@ -386,6 +386,25 @@ let run_containers (x : sexp) : string =
                                      (match d with Some d -> string_of_n d | None -> "poison")) depths)
   | _ -> failwith "containers"
 
+(* ---- C10: layout ---------------------------------------------------------------- *)
+let rec layout_ty (s : sexp) : Layout.ty =
+  match s with
+  | L [A "int"; A n] -> Layout.TInt (z_of_string n)
+  | A "bool" -> Layout.TBool
+  | A "ptr" -> Layout.TPtr
+  | L [A "arr"; A n; t] -> Layout.TArr (z_of_string n, layout_ty t)
+  | L (A "struct" :: ts) -> Layout.TStruct (List.map layout_ty ts)
+  | _ -> failwith "layout ty"
+let run_layout (x : sexp) : string =
+  match x with
+  | L [A "sizeof"; t] ->
+      let t = layout_ty t in
+      Printf.sprintf "sizeof=%s alloc=%s wf=%b" (string_of_z (Layout.penne_sizeof t)) (string_of_z (Layout.llvm_alloc_size t)) (Layout.wf_ty t)
+  | L [A "word"; A declared; L sizes] ->
+      let sizes = List.map (function A n -> z_of_string n | _ -> failwith "size") sizes in
+      Printf.sprintf "typer=%s accepted=%b" (string_of_z (Layout.typer_aligned_size sizes)) (Layout.word_accepted (z_of_string declared) sizes)
+  | _ -> failwith "layout"
+
 let dispatch (stream : string) (x : sexp) : string =
   match stream with
   | "labels" -> run_labels x
@@ -394,6 +413,7 @@ let dispatch (stream : string) (x : sexp) : string =
   | "expand" -> run_expand x
   | "header" -> run_header x
   | "containers" -> run_containers x
+  | "layout" -> run_layout x
   | "tables" -> run_tables (match x with A n -> int_of_string n | _ -> 64)
   | "syntax" -> run_syntax true x
   | "syntax-pinned" -> run_syntax false x
